@@ -50,7 +50,7 @@ def sim(quick_s, thorough_s):
 
 PROPS = {
     "C01": {
-        "stages": [sim(20, 420), real(8, 180)],
+        "stages": [sim(20, 420), real(10, 180)],
         "rule": "random DAG projects (2-14 steps, multi-output, order-only, validation, phony, pools, optional generated manifest) x initial state (fresh / built+edited) x -j/-k/targets/fault plan x completion order (systematic DFS over all completion orders when <= 5 (quick) / 7 (thorough) commands run, else FIFO/LIFO/random/hold policies); non-trivial = at least 2 commands ran and an ordering edge connects two steps that both ran; distinct by hash(graph shape, configuration, start/finish event sequence)",
         "must_observe": ["events", "dfs_complete_cases", "validation_pairs_checked"],
         "assumptions": SIM_ASSUME,
@@ -74,7 +74,7 @@ PROPS = {
         "assumptions": SIM_ASSUME,
     },
     "C18": {
-        "stages": [sim(20, 300), real(8, 180)],
+        "stages": [sim(20, 300), real(14, 180)],
         "rule": "random DAGs with 0-3 default statements, command-line target subsets of size 0-4 under random canon-equivalent spellings; started set must equal the model's dirty steps of the closure (all edge kinds), no step outside the closure may even be considered by the scheduler (state snapshot at every iteration); non-trivial = closure is a strict non-empty subset of the steps",
         "must_observe": ["events"],
         "assumptions": SIM_ASSUME,
@@ -111,7 +111,7 @@ PROPS = {
         "assumptions": SIM_ASSUME,
     },
     "C09": {
-        "stages": [sim(20, 420), pure(5, 60), real(8, 180), real(0, 120, tiers=("thorough",), n2="asan")],
+        "stages": [sim(25, 420), pure(5, 60), real(14, 180), real(0, 120, tiers=("thorough",), n2="asan")],
         "rule": "histories in which a command's reported dependency set grows, shrinks, overlaps declared and order-only inputs, repeats under several spellings (./x, a/../x, x), names missing files, with header edits/deletions in between; exact run-set comparison with the reference model (dep set = canonicalised, de-duplicated, minus declared dirtying inputs; replaced wholesale on success), recorded dep lists decoded from the log writes and compared, clean-build content comparison; non-trivial as C02",
         "must_observe": ["events", "noop_rebuilds_checked"],
         "assumptions": SIM_ASSUME + ["E1 hands the reported list to n2 directly; depfile/showIncludes parsing is covered by C15 and the pure stage"],
@@ -165,7 +165,7 @@ PROPS = {
         "assumptions": PURE_ASSUME + ["end-to-end pty runs are a separate black-box stage when present"],
     },
     "C16": {
-        "stages": [real(25, 480, extra=["--strace", "1"]), real(0, 180, extra=["--strace", "0"], tiers=("thorough",), n2="asan"), real(0, 180, tiers=("thorough",), n2="tsan"), real(0, 120, extra=["--wrap", "valgrind -q --error-exitcode=99 --trace-children=no"], tiers=("thorough",), n2="release")],
+        "stages": [real(40, 480, extra=["--strace", "1"]), real(0, 180, extra=["--strace", "0"], tiers=("thorough",), n2="asan"), real(0, 180, tiers=("thorough",), n2="tsan"), real(0, 120, extra=["--wrap", "valgrind -q --error-exitcode=99 --trace-children=no"], tiers=("thorough",), n2="release")],
         "rule": "black box: 4-20 (quick) / 8-64 (thorough) independent tasks at -j 1-16 whose commands print planned byte streams (sizes 0, 1, 2, 4095, 4096, 4097, 8192, 65535, 65536, 65537, 150000, 300000; split over stdout and stderr in chunks of 1-70000 bytes, with and without final newline, with sleeps), exit with codes 0-255 or die by HUP/TERM/KILL/USR1/PIPE, use response files (quotes, UTF-8) and outputs in nested new directories; every agent checks cwd, stdin (/dev/null at EOF), open descriptors (only 0,1,2), stdout/stderr being one pipe, output directories, response file content and its argv; n2's stdout must contain each task's stream exactly once and contiguously, a `failed:` line exactly for the non-zero/signalled tasks, and the exit status must reflect them; every third case runs shell snippets (quotes, $$, redirections, subshells, backticks, UTF-8, tabs) under n2 and, as a differential twin, directly with /bin/sh -c, comparing the files produced, and a sample under strace compares the exact execve argv; non-trivial = at least 2 tasks with >= 4096 bytes of output and overlapping execution (from the agent log); every twelfth case sends SIGINT to n2's process group mid-build: n2 must stop starting commands and exit non-zero; terminal stage: the same under a pseudo-terminal, judged on an emulated screen (every failed or non-hidden command's header and output lines exactly once, contiguously); deps = msvc on a third of the tasks with CR LF / bare CR in the streams; gated self-interrupt case (a command sends itself SIGINT with other steps queued: nothing may start afterwards, exit status non-zero)",
         "must_observe": ["agent_events", "task_outputs_checked", "twin_files_compared"],
         "assumptions": REAL_ASSUME,
